@@ -315,11 +315,11 @@ func src(n ast.Node) string {
 // ---------- control-flow graph with dominators ----------
 
 type FnCFG struct {
-	p     *Prog
-	g     *cfg.CFG
-	idom  []int // unused
+	p       *Prog
+	g       *cfg.CFG
+	idom    []int          // unused
 	domsets []map[int]bool // dominator sets per block
-	nodes []cfgNode
+	nodes   []cfgNode
 }
 
 type cfgNode struct {
